@@ -125,12 +125,17 @@ func main() {
 			if strings.HasSuffix(f, "_test.go") {
 				continue
 			}
-			if d == "." && !mainOnly[filepath.Base(f)] {
-				continue
-			}
 			var fields map[string]bool
 			if instrumented[d] {
 				fields = packageFieldNames(abs)
+			}
+			if d == "." && !mainOnly[filepath.Base(f)] {
+				// package main: besides validator.go only files that themselves use sync or
+				// sync/atomic are swapped and instrumented (a refactoring may move the shared
+				// structure into a new file); the request-handling files are left alone
+				if !importsAny(f, "sync", "sync/atomic") {
+					continue
+				}
 			}
 			src, changed := rewriteFile(f, swaps[d], fields)
 			if !changed {
@@ -151,6 +156,24 @@ func main() {
 	ovPath := filepath.Join(*out, "overlay.json")
 	must(os.WriteFile(ovPath, data, 0o644))
 	fmt.Println(ovPath)
+}
+
+// importsAny reports whether the Go file imports one of the given paths.
+func importsAny(path string, paths ...string) bool {
+	fset := token.NewFileSet()
+	f, err := parser.ParseFile(fset, path, nil, parser.ImportsOnly)
+	if err != nil {
+		return false
+	}
+	for _, imp := range f.Imports {
+		p, _ := strconv.Unquote(imp.Path.Value)
+		for _, q := range paths {
+			if p == q {
+				return true
+			}
+		}
+	}
+	return false
 }
 
 func fatal(format string, a ...any) {
